@@ -185,6 +185,7 @@ func cmdGen(args []string) {
 	}
 	for len(trees) < *ntrees {
 		t := genTree(r, len(trees)+1)
+		decorateInline(r, t, 0.1)
 		Flatten(t)
 		if !treeOK(t) {
 			continue
@@ -615,10 +616,13 @@ func main() {
 			var t *Tree
 			if *kind == "roundtrip" || (*kind == "determinism" && n%2 == 0) {
 				t = genTreeRT(r, n)
+				decorateFieldAliases(r, t, 0.3)
 			} else {
 				t = genTree(r, n)
+				decorateFieldAliases(r, t, 0.15)
 				decorateIniNames(r, t)
 			}
+			decorateInline(r, t, 0.15)
 			Flatten(t)
 			if !treeOK(t) {
 				continue
